@@ -237,6 +237,11 @@ impl Check for C15 {
                 if rng.bool() {
                     (r.players_online, r.players_maximum) = (rng.b_u32(), rng.b_u32());
                 }
+                // the same type also carries converted Bedrock and legacy statuses: the view does not depend on the label
+                if rng.bool() {
+                    use gamedig::games::minecraft::{LegacyGroup, Server};
+                    r.server_type = rng.pick(&[Server::Bedrock, Server::Legacy(LegacyGroup::V1_6), Server::Legacy(LegacyGroup::V1_4), Server::Legacy(LegacyGroup::VB1_8), Server::Java]).clone();
+                }
                 let exp = View { description: some(&r.description), game_version: some(&r.game_version), players_maximum: r.players_maximum, players_online: r.players_online, players: r.players.as_ref().map(|p| p.iter().map(|x| (x.name.clone(), None)).collect()), ..Default::default() };
                 let orig = matches!(r.as_original(), GenericResponse::Minecraft(gamedig::games::minecraft::VersionedResponse::Java(x)) if std::ptr::eq(x, &r));
                 let porig = r.players.as_ref().map(|ps| ps.iter().all(|p| matches!(p.as_original(), GenericPlayer::Minecraft(x) if std::ptr::eq(x, p))));
